@@ -389,21 +389,8 @@ func ruleSeqhash(c *Ctx, prop string) {
 		}
 	}
 	// DEPEND
-	raw := rawParamUses(tb, h, 0, "strings.ToUpper")
-	stD := holds
-	if len(raw) > 0 {
-		stD = broken
-		for _, r := range raw {
-			casePreserving := map[string]bool{"poly/transform.ReverseComplement": true, "poly/transform.Complement": true, "poly/transform.Reverse": true, "poly/seqhash.RotateSequence": true}
-			if strings.HasPrefix(strings.TrimLeft(r, "(*"), "poly/") && !casePreserving[r] { // handed to another helper (function or method) of the module: not followed
-				stD = unknown
-			}
-			if r == "strings.Map" || r == "strings.ToUpperSpecial" || r == "strings.ToTitle" || r == "bytes.ToUpper" || strings.HasPrefix(r, "(*strings.Replacer)") || strings.HasPrefix(r, "(golang.org/x/text") {
-				stD = unknown // may itself be the case normalisation
-			}
-		}
-	}
-	c.judge(stD, "DEPEND", "raw sequence only under ToUpper", h.Pos(), "letter case cannot influence the hash", "the raw sequence is used without upper-casing by: "+strings.Join(raw, ", "))
+	stD, whyD := judgeCase(c.W, h, 0)
+	c.judge(stD, "DEPEND", "raw sequence only under ToUpper", h.Pos(), "letter case cannot influence the hash", whyD)
 	// prerequisites
 	if haveComp {
 		orc := oracleComplement()
